@@ -203,7 +203,8 @@ func c26DataPhase(preempt int) *explore.Scenario {
 		Budget: map[string]int{"preempt": preempt, "switch": preempt},
 		Run: func(x *explore.X) (r explore.Result) {
 			cl := clients[x.Choose("client", len(clients))]
-			closer := x.Choose("closer", 3) // 0 Close, 1 CloseWrite, 2 none
+			closer := x.Choose("closer", 4) // 0 Close, 1 CloseWrite, 2 none, 3 Close while the peer has stopped reading (transport writes block)
+			stalled := closer == 3
 			link := newTestLink()
 			defer link.close()
 			u := tls.UClient(link.conn, peer.ClientConfig("example.com"), cl.id)
@@ -219,6 +220,12 @@ func c26DataPhase(preempt int) *explore.Scenario {
 				if hsErr != nil {
 					return
 				}
+				if stalled {
+					if link.stall == nil {
+						return // free-running pass: the in-memory pipe has no back-pressure
+					}
+					link.stall()
+				}
 				sched.GoNamed("W", false, func() {
 					n, err := u.Write([]byte("hello-from-writer"))
 					hmu.Lock()
@@ -233,7 +240,7 @@ func c26DataPhase(preempt int) *explore.Scenario {
 					hmu.Unlock()
 				})
 				switch closer {
-				case 0:
+				case 0, 3:
 					sched.GoNamed("C", false, func() { e := u.Close(); hmu.Lock(); clErr = e; hmu.Unlock() })
 				case 1:
 					sched.GoNamed("C", false, func() { e := u.CloseWrite(); hmu.Lock(); clErr = e; hmu.Unlock() })
@@ -277,7 +284,10 @@ func c26DataPhase(preempt int) *explore.Scenario {
 				}
 			}
 			// after everything returned: Write after Close must fail
-			if closer == 0 {
+			if stalled && wrErr == nil && !out.Deadlock {
+				r.Violate("C26|HB|stalled-write-succeeded", "%s: the transport never accepted a byte but Write returned nil", what)
+			}
+			if closer == 0 || closer == 3 {
 				if _, err := u.Write([]byte("x")); err == nil {
 					r.Violate("C26|HB|write-after-close", "%s: Write after Close succeeded", what)
 				}
@@ -373,7 +383,7 @@ func init() {
 			return []*explore.Scenario{c26HandshakeCancel(0, true), c26DataPhase(0), c26WriteVsHandshake(0)}
 		},
 		Run: func(c *explore.Check, thorough bool) {
-			c.Rule = "three harnesses on the real UConn under the controlled scheduler (sync, sync/atomic, channel, go and select of package tls redirected; conn Read/Write/Close and context cancellation are scheduling points; the standard library's crypto/tls server is the peer, run to quiescence; its output is delivered chunk by chunk by a scheduled network thread), clients {HelloGolang, HelloChrome_Auto, HelloChrome_58}: (A) HandshakeContext(ctx1) || {Handshake(), HandshakeContext(ctx2)+cancel2, -} || cancel1; (B) after an un-branched handshake Read || Write || {Close, CloseWrite, -}; (C) Write || Handshake || {Close, Read}. All schedules with <= 1 (2) preemptions and <= 1 (2) free switches, pruned by a happens-before state key. Oracle: no deadlock/livelock, no panic, every caller returns the shared outcome (nil iff HandshakeComplete) or its own context error with the connection closed, callers agree, late cancellation is inert (epilogue round trip), data read is a prefix of what was written, Write after Close fails. distinct = outcome class"
+			c.Rule = "three harnesses on the real UConn under the controlled scheduler (sync, sync/atomic, channel, go and select of package tls redirected; conn Read/Write/Close and context cancellation are scheduling points; the standard library's crypto/tls server is the peer, run to quiescence; its output is delivered chunk by chunk by a scheduled network thread), clients {HelloGolang, HelloChrome_Auto, HelloChrome_58}: (A) HandshakeContext(ctx1) || {Handshake(), HandshakeContext(ctx2)+cancel2, -} || cancel1; (B) after an un-branched handshake Read || Write || {Close, CloseWrite, -, Close while the peer has stopped reading so that the transport write blocks}; (C) Write || Handshake || {Close, Read}. All schedules with <= 1 (2) preemptions and <= 1 (2) free switches, pruned by a happens-before state key. Oracle: no deadlock/livelock, no panic, every caller returns the shared outcome (nil iff HandshakeComplete) or its own context error with the connection closed, callers agree, late cancellation is inert (epilogue round trip), data read is a prefix of what was written, Write after Close fails. distinct = outcome class"
 			c.Assumptions = []string{"scheduling points are the hooked synchronisation operations; unsynchronised accesses are only seen by the separate free-running -race pass", "the peer runs atomically between client writes (finer peer timing is represented by chunked delivery only)", "preemption-bounded: no violation with <= k preemptions is the claim"}
 			runAll(c, c26Scenarios(thorough), 0)
 			if c.ShardN == 0 {
